@@ -110,6 +110,7 @@ type scenario struct {
 	threads [][]op
 	planQ   string // query the shared plan is built from (if any opPlanExec)
 	maxEnt  int
+	warm    []string // queries stored in the shared caches before the threads start (oldest first)
 }
 
 func scenarios(thorough bool) []scenario {
@@ -129,6 +130,8 @@ func scenarios(thorough bool) []scenario {
 		{name: "shared cache, variable-driven directives", threads: [][]op{{{opCacheExec, "dynamic", 1}}, {{opCacheExec, "dynamic", 0}, {opCacheExecN, "dynamic", 1}}}, maxEnt: 2},
 		{name: "validation and execution on a cold schema", threads: [][]op{{{opValidate, "frag", 0}}, {{opDo, "abstract", 1}}}},
 		{name: "introspection next to execution on a cold schema", threads: [][]op{{{opDo, "introspec", 0}}, {{opDo, "nested", 1}}}},
+		{name: "warm cache, hits on two different keys", threads: [][]op{{{opCacheExec, "frag", 0}}, {{opCacheExec, "enum-out", 0}}}, maxEnt: 3, warm: []string{"frag", "enum-out", "abstract"}},
+		{name: "warm cache of size 2, a hit on the oldest key next to a miss that evicts", threads: [][]op{{{opCacheExec, "frag", 0}}, {{opCacheExec, "abstract", 1}}}, maxEnt: 2, warm: []string{"frag", "enum-out"}},
 		{name: "invalid request next to a valid one", threads: [][]op{{{opDo, "invalid", 0}}, {{opDo, "enum-out", 0}}}},
 	}
 	if thorough {
@@ -168,6 +171,10 @@ func newShared(g *gen.Schema, sc scenario) (*shared, error) {
 	if sc.maxEnt > 0 {
 		sh.cache = graphql.NewPlanCache(graphql.PlanCacheOptions{MaxEntries: sc.maxEnt})
 		sh.ncach = graphql.NewPlanCache(graphql.PlanCacheOptions{MaxEntries: sc.maxEnt, Normalize: true})
+		for _, q := range sc.warm {
+			sh.cache.Get(&b.Schema, queries[q], "")
+			sh.ncach.Get(&b.Schema, queries[q], "")
+		}
 	}
 	return sh, nil
 }
